@@ -78,12 +78,12 @@ Proof. exact listing_is_live_refuted. Qed.
 Print Assumptions C14_listing_is_live_refuted.
 
 (* the protocol never blocks by itself: in every reachable state in which some caller
-   is inside updateReferrersIndex some event is enabled (a caller can assign, a waiting
+   is inside updateReferrersIndex some event other than a new call is enabled (a caller can assign, a waiting
    member can take the main status, the main caller's next lock region / exchange can
    happen with either outcome, a returned caller can release the Pool entry) *)
 Theorem C14_no_deadlock : forall sg r0 st0 tr s,
   run sg (init r0 st0) tr = Some s -> (exists t, holding (pcs s t) = true) ->
-  exists e s', step sg s e = Some s'.
+  exists e s', is_env e = false /\ step sg s e = Some s'.
 Proof. exact no_deadlock. Qed.
 Print Assumptions C14_no_deadlock.
 
@@ -94,7 +94,7 @@ Print Assumptions C14_no_deadlock.
 Theorem C14_bounded_completion : forall sg r0 st0 tr s,
   run sg (init r0 st0) tr = Some s ->
   exists bound, forall tr' s',
-    forallb (fun e => negb (is_get e)) tr' = true -> run sg s tr' = Some s' ->
+    forallb (fun e => negb (is_env e)) tr' = true -> run sg s tr' = Some s' ->
     (length tr' <= bound)%nat.
 Proof. exact bounded_completion. Qed.
 Print Assumptions C14_bounded_completion.
